@@ -1,12 +1,20 @@
 import Tickit.Proof.RectSet
 import Tickit.Proof.RectSetInv
+import Tickit.Proof.RectSetTerm
 import Tickit.Gen.Leaf
 /-
   C05 — A rectangle set is exactly the union of what was added minus what was subtracted.
 
   `RectSet.add`, `subtract`, `contains` take a `fuel` (the C loops restart and recurse on data they
-  rewrite); every theorem holds for *every* fuel: "whenever the function returns, …".  Cells range over
-  all of `Int × Int`; histories over all finite lists of operations.
+  rewrite); every correctness theorem holds for *every* fuel: "whenever the function returns, …", and the
+  termination theorems at the end show that on arrays that have the invariant they do return.  Cells range
+  over all of `Int × Int`; histories over all finite lists of operations.
+
+  Clauses of the property and where they are proved:
+    exact region after any history ............ `history_exact_full` (with `history_terminates`)
+    non-empty, pairwise disjoint, sorted ...... `Inv` in `history_exact_full` (`inv_def` spells it out)
+    contains / intersects exact ............... `contains_iff_full`, `intersects_iff`, `history_queries`
+    single operations ......................... `add_spec`+`add_inv`, `subtract_spec`, `translate_spec`+`translate_inv`, `clear_spec`
 -/
 namespace Tickit.Props.C05
 open Tickit Tickit.Rect Tickit.RectSet
@@ -329,6 +337,65 @@ theorem history_queries (fuel : Nat) (ops : List Op) (s : List Rect) (q : Rect)
     constructor
     · intro hh l c hm; exact (hreg l c).1 (hh l c hm)
     · intro hh l c hm; exact (hreg l c).2 (hh l c hm)
+
+/-! ### termination: the fuel is only a proof device
+
+On arrays that have the invariant, `add` and `subtract` return for every sufficiently large fuel (and, by
+`add_mono`/`subtractFrom_mono`, with the same result for every larger fuel); so does every valid history.
+The measure of a call of `add` is (cells of the rectangle already covered, unit vertical edges of the
+rectangle with a covered cell on the outside, length of the array), lexicographically. -/
+
+theorem add_terminates (s : List Rect) (r : Rect) (hs : Inv s) (hr : r.Nonempty) :
+    ∃ N, ∀ fuel, N ≤ fuel → RectSet.add fuel s r ≠ none := by
+  obtain ⟨N, hN⟩ := RectSet.add_terminates ((inv_iff s).1 hs) hr
+  exact ⟨N, fun fuel hf => by obtain ⟨s', h⟩ := hN fuel hf; simp [h]⟩
+
+theorem subtract_terminates (s : List Rect) (r : Rect) (hs : Inv s) (hr : r.Nonempty) :
+    ∃ N, ∀ fuel, N ≤ fuel → RectSet.subtract fuel s r ≠ none := by
+  obtain ⟨N, hN⟩ := RectSet.subtract_terminates ((inv_iff s).1 hs) hr
+  exact ⟨N, fun fuel hf => by obtain ⟨s', h⟩ := hN fuel hf; simp [h]⟩
+
+theorem run_terminates : ∀ (ops : List Op) (s : List Rect), Inv s → Valid ops →
+    ∃ N, ∀ fuel, N ≤ fuel → ∃ s', runOps fuel s ops = some s' := by
+  intro ops
+  induction ops with
+  | nil => intro s _ _; exact ⟨0, fun _ _ => ⟨s, rfl⟩⟩
+  | cons o ops ih =>
+    intro s hs hv
+    have hvo : Op.Valid o := hv o (by simp)
+    have hvr : Valid ops := fun x hx => hv x (by simp [hx])
+    cases o with
+    | add r =>
+      obtain ⟨N1, hN1⟩ := RectSet.add_terminates ((inv_iff s).1 hs) hvo
+      obtain ⟨s1, h1⟩ := hN1 N1 (Nat.le_refl _)
+      obtain ⟨N2, hN2⟩ := ih s1 (add_inv N1 s s1 r h1 hvo hs) hvr
+      refine ⟨max N1 N2, fun fuel hf => ?_⟩
+      obtain ⟨s', hs'⟩ := hN2 fuel (by omega)
+      exact ⟨s', by simp only [runOps, add_mono h1 (by omega : N1 ≤ fuel), Option.bind_some]; exact hs'⟩
+    | sub r =>
+      obtain ⟨N1, hN1⟩ := RectSet.subtract_terminates ((inv_iff s).1 hs) hvo
+      obtain ⟨s1, h1⟩ := hN1 N1 (Nat.le_refl _)
+      obtain ⟨N2, hN2⟩ := ih s1 (subtract_removes N1 s s1 r hs hvo h1).1 hvr
+      refine ⟨max N1 N2, fun fuel hf => ?_⟩
+      obtain ⟨s', hs'⟩ := hN2 fuel (by omega)
+      have h1' : RectSet.subtract fuel s r = some s1 := subtractFrom_mono h1 (by omega)
+      exact ⟨s', by simp only [runOps, h1', Option.bind_some]; exact hs'⟩
+    | xl d k =>
+      obtain ⟨N, hN⟩ := ih _ (translate_inv s d k hs) hvr
+      exact ⟨N, fun fuel hf => by simpa only [runOps] using hN fuel hf⟩
+    | clear =>
+      obtain ⟨N, hN⟩ := ih _ (clear_inv s) hvr
+      exact ⟨N, fun fuel hf => by simpa only [runOps] using hN fuel hf⟩
+
+/-- **Every valid history runs to completion** (for every sufficiently large fuel), and then
+    `history_exact_full` and `history_queries` apply to its result. -/
+theorem history_terminates (ops : List Op) (hv : Valid ops) :
+    ∃ N, ∀ fuel, N ≤ fuel → ∃ s, runOps fuel [] ops = some s ∧
+      Inv s ∧ ∀ l c, Covered s l c ↔ refRegion ops l c := by
+  obtain ⟨N, hN⟩ := run_terminates ops [] (clear_inv []) hv
+  refine ⟨N, fun fuel hf => ?_⟩
+  obtain ⟨s, hs⟩ := hN fuel hf
+  exact ⟨s, hs, history_exact_full fuel ops s hs hv⟩
 
 /-! ### the generated leaf function is the model's -/
 
